@@ -1,0 +1,7 @@
+//go:build !verif && !no_workceptor
+
+package workceptor
+
+// verifWatcher is a hook of the verification harness; without the verif build tag it returns nil
+// and Init creates the usual fsnotify watcher.
+func verifWatcher() WatcherWrapper { return nil }
